@@ -43,6 +43,8 @@ def run(ctx):
                         res.violation(oracle, sig, ex, ob, replay=r)
 
                 st = e1.explore(ctx.pool, req, alpha, bound, on_exec, skip_cp=lambda cp: cp["kind"] == "hook")
+
+                flows.account_divergences(res, st)
                 bounds["%s/%s" % (variant, name)] = {"bound": bound, "executions": st["executions"], "per_depth": st["per_depth"],
                                                     "choice_points": st["choice_points_max"]}
                 res.extra.setdefault("alphabet_sizes", {}).update({name: st["alphabet_sizes"]})
